@@ -23,6 +23,7 @@ import (
 	mskeeper "github.com/KiraCore/sekai/x/multistaking/keeper"
 	mstypes "github.com/KiraCore/sekai/x/multistaking/types"
 	slashingtypes "github.com/KiraCore/sekai/x/slashing/types"
+	tokenskeeper "github.com/KiraCore/sekai/x/tokens/keeper"
 	tokenstypes "github.com/KiraCore/sekai/x/tokens/types"
 	abci "github.com/cometbft/cometbft/abci/types"
 	tmproto "github.com/cometbft/cometbft/proto/tendermint/types"
@@ -44,7 +45,7 @@ const (
 	kfCollector   = "C10/allocate/fee-collector-short-of-owed-rewards-panics"
 )
 
-var c10Toks = []string{"ukex", "ubtc", "utst", "xeth", "frozen", "ueth"}
+var c10Toks = []string{"ukex", "ubtc", "utst", "xeth", "frozen", "ueth", "newa", "newb", "newc"} // the last three: registered only by message, mid-episode
 var reShare = regexp.MustCompile(`^v(\d+)/(.+)$`)
 
 type c10 struct {
@@ -1108,6 +1109,36 @@ func (e *c10) upsertTok(i int, enabled bool, cap sdk.Dec) {
 	}
 }
 
+// registerTok: a holder of PermUpsertTokenInfo registers a NEW denomination by MsgUpsertTokenInfo (real tokens msg server,
+// which runs the message's ValidateBasic first): also with caps outside [0, 1] and for tokens that cannot be staked.
+func (e *c10) registerTok(i int, enabled bool, cap, rate sdk.Dec) {
+	app := e.w.app
+	if app.TokensKeeper.GetTokenInfo(e.ctx, c10Toks[i]) != nil {
+		return
+	}
+	z := sdk.ZeroInt()
+	msg := tokenstypes.NewMsgUpsertTokenInfo(e.w.addrs[0], c10Toks[i], "adr20", rate, true, z, z, cap, sdkmath.NewInt(1), enabled, false, c10Toks[i], c10Toks[i], "", 6, "", "", "", 0, z, "", false, "", "")
+	ts := tokenskeeper.NewMsgServerImpl(app.TokensKeeper, app.CustomGovKeeper)
+	err := withCache(e.ctx, func(c sdk.Context) error { _, e2 := ts.UpsertTokenInfo(sdk.WrapSDKContext(c), msg); return e2 })
+	en := 0
+	if enabled {
+		en = 1
+	}
+	e.op(fmt.Sprintf("ms register-tok %d %d 1 %s %s", i, en, cap.String(), rate.String()), c10okErr(err))
+	e.r.Count("register-tok:" + c10okErr(err))
+	e.r.Case(fmt.Sprintf("register-tok/%d/%v/%s/%s/%s", i, enabled, cap, rate, c10okErr(err)), err == nil)
+	total := sdk.ZeroDec()
+	for _, t := range app.TokensKeeper.GetAllTokenInfos(e.ctx) {
+		total = total.Add(t.StakeCap)
+		if t.StakeCap.IsNegative() || t.StakeCap.GT(sdk.OneDec()) {
+			e.r.Fail("C10/token-registry/stake-cap-out-of-range", fmt.Sprintf("after MsgUpsertTokenInfo(%s, enabled=%v, cap=%s) [%s] token %s is registered with the reward cap %s: the registry's sum rule no longer bounds what the stakeable tokens split", c10Toks[i], enabled, cap, c10okErr(err), t.Denom, t.StakeCap), e.replay())
+		}
+	}
+	if total.GT(sdk.OneDec()) {
+		e.r.Fail("C10/token-registry/stake-caps-above-100-percent", fmt.Sprintf("after MsgUpsertTokenInfo(%s, enabled=%v, cap=%s) [%s] the stake caps of the registered tokens add up to %s", c10Toks[i], enabled, cap, c10okErr(err), total), e.replay())
+	}
+}
+
 func (e *c10) regEvery() int {
 	if e.regOften {
 		return 10
@@ -1178,6 +1209,15 @@ func (e *c10) episode(n int, ep int) {
 		if rng.Intn(e.regEvery()) == 0 {
 			// registry edits in the middle of the episode: switch the staking of a token off or on (its cap and the shares in
 			// the pools stay), or move a cap - also to values that only fit if the disabled tokens were left out of the sum
+			if rng.Intn(3) == 0 {
+				caps := []string{"-0.85", "-0.1", "0", "0.05", "0.15", "1", "1.000000000000000001", "-0.000000000000000001"}
+				rate := sdk.OneDec()
+				if rng.Intn(8) == 0 {
+					rate = sdk.ZeroDec()
+				}
+				e.registerTok(6+rng.Intn(3), rng.Intn(2) == 0, sdk.MustNewDecFromStr(caps[rng.Intn(len(caps))]), rate)
+				continue
+			}
 			ti := rng.Intn(4) // ukex ubtc utst xeth
 			cur := app.TokensKeeper.GetTokenInfo(e.ctx, c10Toks[ti])
 			if cur != nil {
